@@ -87,6 +87,8 @@ def catalogue():
     # as above, but the work left for the scheduler FINISHES the first branch (a msg act completes by itself): worker and client both end a branch of s1
     C["two_branches_msg"] = (wf("m", [step("s1", branches=[branch("b1", [step("s11", [irq("a1"), msg("m1")])], **{"if": "c1"}), branch("b2", [step("s21", [irq("a2")])], **{"if": "c2"})]),
                                       step("s2", [irq("a3")])]), {"c1": "$bool", "c2": "$bool"})
+    # a timed act (1s rule with a handler step) followed by another step: for the tick-vs-action race
+    C["tmo_act"] = (wf("m", [step("s1", [irq("a1", timeout=[timeout("1s", [step("ts0", [irq("ta0")])])])]), step("s2", [irq("a2")])]), {})
     C["two_steps"] = (wf("m", [step("s1", [irq("a1")]), step("s2", [irq("a2")])]), {})
     C["one_irq"] = (wf("m", [step("s1", [irq("a1")])]), {})
     C["if_else_first"] = (wf("m", [step("s1", branches=[
@@ -233,7 +235,7 @@ def catalogue():  # noqa: F811
 
 
 # skeletons that only make sense for a particular driver (tree check, engine-raised errors, reload with ticks)
-SPECIAL = ("step_next", "tmo_reload", "no_ids", "branches_and_acts", "init_err_own_catch", "init_err_step_catch", "init_err_uncaught")
+SPECIAL = ("step_next", "tmo_reload", "no_ids", "branches_and_acts", "tmo_act", "init_err_own_catch", "init_err_step_catch", "init_err_uncaught")
 
 
 def flow_names(extended=True):
